@@ -5,6 +5,7 @@ A case = {"cells", "nodes", "runs", "same_set", "kind"}: one pool of placeables,
 once per entry of "runs" (different listings).  See harness/src/bin/c09.rs for the JSON shapes."""
 import json, re
 from vlib import *
+from props.kernelcommon import kernel_tie_leg
 
 TOP, BOTTOM, LEFT, RIGHT = 0, 1, 2, 3
 SIDE_NAME = ["Top", "Bottom", "Left", "Right"]
@@ -396,6 +397,7 @@ def nontrivial(c):
 
 def run(chk, replay=None):
     chk.proof_leg(["Tetris/PlacerCheck.vo"], "Properties/C09.v", ["Tetris/Placer_proofs.v"], "Properties.C09")
+    kernel_tie_leg(chk, "tetris_place")       # generated-from-source kernels = the model functions (Properties/KernelsTetris.v)
     chk.assumptions += [
         "isize arithmetic does not overflow (coordinates are Z in the model; generated coordinates are small)",
         "a layout's placeables are a finite pool of distinct pointers, node id = pointer identity; RwLock behaviour is not modelled "
